@@ -158,9 +158,10 @@ def case(item):
         if layout is not None:
             # the same entries in every chain (the expected outputs stay what they are), chains stored in completion order
             chains = {c: list(chains[0]) for c in range(layout[0])}
-            results = traces.make_results(data, samples, chains, insertion_order=list(layout[1]))
+            results = traces.make_results(data, samples, chains, insertion_order=list(layout[1]), thin=(5 if dims == 1 else 1))
         else:
-            results = traces.make_results(data, samples, chains)
+            # half of the traces are thinned ones (recorded iteration numbers run ahead of the positions in the trace)
+            results = traces.make_results(data, samples, chains, thin=(5 if (dims + len(sts)) % 2 else 1))
         path = traces.write_trace(d, results, crows)
         single = sts[0] if (len(sts) == 1 or spec[0] == "revisit") else None
         jobs = []
